@@ -93,6 +93,34 @@ theorem C04_wl_gate (s s' : State) (m : Minter) (a : MintArgs) (k : Nat) (w : Wl
     rw [hw] at hw'; cases hw'
     exact memberCheck_entitled hact hmem
 
+theorem activeStage_mem {w : Wl} {now : Nat} {st : Stage} (h : w.activeStage now = some st) : st ∈ w.stages := by
+  unfold Wl.activeStage at h
+  by_cases ht : w.kind.isTiered
+  · simp [ht] at h
+    exact List.mem_of_find?_eq_some h
+  · simp [ht] at h
+    cases hs : w.stages with
+    | nil => simp [hs] at h
+    | cons s0 rest =>
+      simp [hs] at h
+      simp [h.2]
+
+/-- "… or holds a valid Merkle proof **bound to the sender**": against a whitelist that keeps no member list (the two
+Merkle whitelists) the only way through is the sibling path of the leaf built from the sender's OWN address (and the
+stage / allocation the sender states) in the tree in force — a path generated for anybody else's leaf, for another
+tree or for another whitelist never lets this sender mint. -/
+theorem C04_merkle_proof_bound_to_sender (s s' : State) (m : Minter) (a : MintArgs) (k : Nat) (w : Wl)
+    (hm : s.minter = some m) (hk : m.wl = some k) (hw : s.wls k = some w) (hact : w.isActive s.now = true)
+    (hnolist : ∀ st ∈ w.stages, st.members = [])
+    (h : step s (.mint a) = .ok s') :
+    ∃ i st, w.activeIdx s.now = some i ∧ w.activeStage s.now = some st ∧
+      a.proof = .forLeaf k i ⟨a.stage, a.sender, a.alloc⟩ ∧ (⟨a.stage, a.sender, a.alloc⟩ : Leaf) ∈ st.leaves := by
+  obtain ⟨⟨st, hst, hor⟩, -⟩ := C04_wl_gate s s' m a k w hm hk hw hact h
+  rcases hor with hmem | ⟨i, hi, hp, hl⟩
+  · have := hnolist st (activeStage_mem hst)
+    simp [Stage.hasMember, this] at hmem
+  · exact ⟨i, st, hi, hst, hp, hl⟩
+
 /-- "when it is not active the public rules apply": a successful mint happened at or after the start, within the
 public per-address limit, and paid exactly the public price. -/
 theorem C04_inactive_public_rules (s s' : State) (m : Minter) (a : MintArgs)
